@@ -17,6 +17,23 @@ def alloc_conf(prop, rule, extra_assume=(), level="model_checking"):
                   "universes are closed alphabets of pool layouts and service variants (DESIGN 5)", "map iteration order owned: sorted"] + list(extra_assume),
  }
 
+MAP_SPEAKER = ["speaker/layer2_controller.go", "speaker/main.go", "speaker/bgp_controller.go"]
+
+MAP_SPK_FULL = MAP_SPEAKER + ["internal/config/config.go", "internal/k8s/controllers/config_conversion.go", "internal/k8s/controllers/config_controller.go",
+                               "internal/k8s/controllers/service_controller_reload.go", "internal/layer2/announcer.go"]
+
+def spk_conf(prop, rule):
+    return {
+  "level": "model_checking",
+  "rule": rule,
+  "parts": [{"name": "main", "pkg": "speaker", "test": "TestVerif_" + prop, "shards": {"quick": 16, "thorough": 16},
+             "budget_s": {"quick": 120, "thorough": 1500}, "gomaxprocs": 1}],
+  "rewrites": {"map": MAP_SPK_FULL, "go": ["internal/layer2/announcer.go"]},
+  "assumptions": ["Kubernetes side is a model (DESIGN 3): one worker per reconciler, any pending key next", "nodes me/other exist before any service (DESIGN F7)",
+                  "a refused SetConfig stays pending (not quiescent)", "interface list fixed to eth0, eth1; background interface scan and spam loop suppressed",
+                  "map iteration order owned: sorted"],
+ }
+
 CONF = {
  "C18": {
   "level": "exploration",
@@ -46,4 +63,27 @@ CONF = {
  "C06": alloc_conf("C06", "same graph with crash/restart (between any two events, before and after the first status write of a delivery) and failing status writes as bounded deviations; keep / no-steal / no-leak / gate oracles at the new instance's quiescent states", ["crash = the process is replaced by a fresh controller+reconcilers+allocator over the same store; all pending work is lost and re-derived from initial add events"], level="fault_enumeration"),
  "C07": alloc_conf("C07", "same graph; starvation oracle on every quiescent state: a LoadBalancer service without address for which refalloc finds an admissible assignment with the others' holdings fixed"),
  "C11": alloc_conf("C11", "same graph; on every new state: counters == distinct addresses in use, assigned+available == refcidr capacity, no negative counter, allocator dump == dump of a fresh allocator rebuilt from the surviving assignments, every address released by the transition can be assigned to a fresh service"),
+ "C04": {
+  "level": "exploration",
+  "rule": "every cluster view of 3 nodes: per node (speaker alive, Node object known, ok/NetworkUnavailable/excluded, selected by which L2 advertisement, endpoint state) x memberlist disabled x ignoreExcludeLB x traffic policy x extra endpoint without node name x 9 service/address-list sets (single, dual in both orders, two services sharing an address); the real ShouldAnnounce is evaluated once per node per service on long-lived controllers; plus all explored map-iteration orders of the candidate list for 2..5 eligible nodes; distinct_nontrivial counts distinct views",
+  "parts": [{"name": "main", "pkg": "speaker", "test": "TestVerif_C04", "shards": {"quick": 16, "thorough": 16}}],
+  "rewrites": {"map": MAP_SPEAKER},
+  "assumptions": ["the view is what the speakers share (memberlist output taken as input)", "services sharing an address are required to agree only when their eligible sets are equal (same policy, same endpoints) - DESIGN F16"],
+ },
+ "C12": {
+  "level": "exploration",
+  "rule": "node universe of 5 names: every non-empty eligible set S (31) x every sub/superset T x address catalogue (IPv4, IPv6, dual-stack both orders) x both policies x every explored map-iteration order; relational oracle on the winner function evaluated by the real ShouldAnnounce on every node (long-lived controllers, re-evaluation after other views)",
+  "parts": [{"name": "main", "pkg": "speaker", "test": "TestVerif_C12", "shards": {"quick": 16, "thorough": 16}}],
+  "rewrites": {"map": MAP_SPEAKER},
+  "assumptions": ["eligible sets realised through the live-speaker flags; map orders: all for <=3 candidates, rotations+reversal above"],
+ },
+ "C05": spk_conf("C05", "explicit-state BFS over histories of service/status/endpoint/config/node-label events on the real speaker controller + bgpController with a recording session manager; at every quiescent state the per-peer route sets and per-service peer sets are compared with refbgp computed from the resources as written"),
+ "C09": spk_conf("C09", "explicit-state BFS over histories of service, endpoint, node, configuration and membership events on the real speaker (L2 announcer + BGP controller); at every new quiescent state the observable (announcer holdings, responder decisions for every address x interface, per-session routes) is compared with a fresh real speaker fed the final cluster state"),
+ "C10": {
+  "level": "exploration",
+  "rule": "endpoint-slice layouts of 0..3 entries (ready in {nil,T,F} x serving in {nil,T,F} x node in {me, other, none} x address set in {a},{b},{a,b}; every split into two slices) x node known/NetworkUnavailable/exclude label x ignoreExcludeLB x advertisement selecting me/other/nobody/two advertisements x policy; real bgpController.ShouldAnnounce and, for the positive half, real speaker controller.SetBalancer with a recording session (routes iff announce); distinct_nontrivial counts distinct cases",
+  "parts": [{"name": "main", "pkg": "speaker", "test": "TestVerif_C10", "shards": {"quick": 16, "thorough": 16}}],
+  "rewrites": {"map": MAP_SPEAKER},
+  "assumptions": ["under the Local policy, layouts where one address is carried by entries on different nodes with conflicting conditions are not judged (statement ambiguous, DESIGN F6)"],
+ },
 }
